@@ -656,6 +656,20 @@ class err_gs(err_node):
         self.st_count_recv = src.st_count  # AK903
         #self.st_count_accept = self.st_count_recv - len(self.children) # AK904
 
+    @property
+    def ack_code(self):
+        """
+        Group acknowledgement code.  Errors of the GE segment itself are
+        recorded after the loop was closed: an acceptance is re-evaluated
+        """
+        if self._ack_code == 'A':
+            return self._get_ack_code()
+        return self._ack_code
+
+    @ack_code.setter
+    def ack_code(self, ack_code):
+        self._ack_code = ack_code
+
     def _get_ack_code(self):
         for child in self.children:
             if child.get_error_count() > 0:
@@ -800,6 +814,20 @@ class err_st(err_node):
             self.ack_code = 'R'
         else:
             self.ack_code = 'A'
+
+    @property
+    def ack_code(self):
+        """
+        Transaction set acknowledgement code.  Errors of the SE segment itself
+        are recorded after the loop was closed: an acceptance is re-evaluated
+        """
+        if self._ack_code == 'A' and self.err_count() > 0:
+            return 'R'
+        return self._ack_code
+
+    @ack_code.setter
+    def ack_code(self, ack_code):
+        self._ack_code = ack_code
 
     def err_count(self):
         """
